@@ -20,4 +20,47 @@ theorem colBelow_iff (t : K) (v : Col K) :
   simp only [ScF.lt, ScF.sqrt, decide_eq_true_eq, Lin.zero, ScF.ofInt]
   rw [← Array.foldl_toList, foldl_sq_eq]
   simp
+
+omit [LinearOrder K] [IsStrictOrderedRing K] in
+theorem foldl_prod_eq (f g : Nat → K) (l : List Nat) (a : K) :
+    l.foldl (fun acc k => acc + f k * g k) a = a + (l.map (fun k => f k * g k)).sum := by
+  induction l generalizing a with
+  | nil => simp
+  | cons x xs ih => simp only [List.foldl_cons, List.map_cons, List.sum_cons, ih]; ring
+
+/-- exact-arithmetic reading of one entry of `X' * BX`: the plain dot product `Σ_k x_k (bx)_k` -/
+theorem gramEntry_eq (x bx : Col K) :
+    @gramEntry K _ _ (scOfField F) x bx =
+      ((List.range x.d.size).map (fun k => @Lin.vget K (scOfField F) x.d k * @Lin.vget K (scOfField F) bx.d k)).sum := by
+  unfold gramEntry
+  rw [foldl_prod_eq]
+  simp [Lin.zero]
+
+/-- exact-arithmetic reading of the guard in front of `m_info = Success`: every entry of `X' BX - I` is below `thr` in absolute
+    value, i.e. `max |X' BX - I| < thr` -/
+theorem gramOrthOk_iff (thr : K) (X BX : List (Col K)) :
+    @gramOrthOk K _ _ _ (scOfField F) thr X BX = true ↔
+      ∀ i j, i < X.length → j < BX.length → ∃ x bx, X[i]? = some x ∧ BX[j]? = some bx ∧
+        |((List.range x.d.size).map (fun k => @Lin.vget K (scOfField F) x.d k * @Lin.vget K (scOfField F) bx.d k)).sum
+          - (if i = j then 1 else 0)| < thr := by
+  unfold gramOrthOk
+  simp only [List.all_eq_true, List.mem_range]
+  constructor
+  · intro h i j hi hj
+    have := h i hi j hj
+    have hx : X[i]? = some X[i] := List.getElem?_eq_getElem hi
+    have hb : BX[j]? = some BX[j] := List.getElem?_eq_getElem hj
+    rw [hx, hb] at this
+    refine ⟨X[i], BX[j], hx, hb, ?_⟩
+    simp only [ScF.lt, ScF.abs, decide_eq_true_eq, gramEntry_eq, Lin.one, Lin.zero, ScF.ofInt] at this
+    by_cases hij : i = j
+    · simpa [hij] using this
+    · simpa [hij] using this
+  · intro h i hi j hj
+    obtain ⟨x, bx, hx, hb, hlt⟩ := h i j hi hj
+    rw [hx, hb]
+    simp only [ScF.lt, ScF.abs, decide_eq_true_eq, gramEntry_eq, Lin.one, Lin.zero, ScF.ofInt]
+    by_cases hij : i = j
+    · simpa [hij] using hlt
+    · simpa [hij] using hlt
 end Lobpcg
